@@ -16,7 +16,7 @@
 //                 fiemap  media fiemap answered from SEEK_DATA / SEEK_HOLE of the real file (block granular extents)
 //                 capfull capacity 0: every media write finds the pool full -> forceRecycle sweeps, plus a fast timer
 //                 punchend directed: cache a file with a partial tail, evict-to-end at the first block boundary past the end
-//                         (at rest), reopen the directory with a new pool, read again
+//                         (at rest), reopen the directory with a new pool (odd executions: let the idle store expire instead), read again
 //                 async   FileCachePool with a thread pool (ICachePool::m_thread_pool set by a derived class): the media
 //                         write of a refill runs in a pool thread that keeps the range lock
 #include <photon/photon.h>
@@ -416,10 +416,12 @@ int main(int argc, char** argv) {
         p.async = mode == "async"; p.capfull = mode == "capfull";
         p.fie = mode == "fiemap" ? true : mode == "map" ? false : rng.coin(50);
         bool directed = mode == "punchend";
+        bool viattl = directed && (x & 1);        // odd executions: no new pool instance, the idle store expires instead (short TTL)
         static const uint64_t RUS[] = {4096, 8192, 16384, 65536, 4096, 8192};
         p.ru = RUS[rng.below(6)];
         p.nf = 1 + (int)rng.coin(35);
         p.ttl = rng.coin(40) ? 3000 : rng.coin(50) ? 50000 : 10000000;
+        if (viattl) p.ttl = 3000;
         p.period = p.capfull ? (rng.coin(50) ? 2000 : 20000) : 3600ull * 1000 * 1000;
         g_size.clear();
         vt::Arr sizes;
@@ -512,7 +514,8 @@ int main(int argc, char** argv) {
                     delete h;
                 }
             }
-            if (ph + 1 < phases && (directed || rng.coin(55))) {
+            if (viattl) photon::thread_usleep(80 * 1000);
+            if (ph + 1 < phases && !viattl && (directed || rng.coin(55))) {
                 delete fs;                                   // the pool instance, its stores, the media wrapper
                 vt::Ev("Reopen").i("x", x);
                 fs = make_fs(p, dir, &alloc, src);
